@@ -56,7 +56,8 @@ func (p *Prog) JS() string {
 		case "set":
 			sb.WriteString(fmt.Sprintf("b[%s] = %s;\n", jsText(op.K), jsText(op.J)))
 		case "copy":
-			sb.WriteString(fmt.Sprintf("if (b[%s] !== undefined) { b[%s] = b[%s]; }\n", jsText(op.K2), jsText(op.K), jsText(op.K2)))
+			// a deep copy: the two bindings must not share structure (a later in-place change of one is not a change of the other)
+			sb.WriteString(fmt.Sprintf("if (b[%s] !== undefined) { b[%s] = JSON.parse(JSON.stringify(b[%s])); }\n", jsText(op.K2), jsText(op.K), jsText(op.K2)))
 		case "del":
 			sb.WriteString(fmt.Sprintf("delete b[%s];\n", jsText(op.K)))
 		case "delall":
